@@ -65,6 +65,15 @@ Theorem C11_set_node_scenarios : forall o, In o setnode_ops -> forall k,
 Proof. exact setnode_scenarios_all_k. Qed.
 Print Assumptions C11_set_node_scenarios.
 
+(* RemoveNode: the strongest true statement *)
+Theorem C11_remove_node_partial : forall n w k,
+  (forall y, In y (nodes w) -> n_name y = n -> n_avail y = true) ->
+  exists w' k' r, crunk (remove_node n) w k = (w', k', r) /\
+  (r <> None -> w' = w \/ w' = othnp w (del_node n (nodes w)) (plugs w)) /\
+  (r = None -> w' = othnp w (del_node n (nodes w)) (del_plug n (plugs w))).
+Proof. exact remove_node_partial. Qed.
+Print Assumptions C11_remove_node_partial.
+
 Theorem C11_remove_node_refuted :
   r_err rmnode_bad = 1%Z /\ same_proj (r_world rmnode_bad) busy3 = false /\
   find_node (r_world rmnode_bad) 2 = None /\ find_plug (r_world rmnode_bad) 2 <> None.
